@@ -476,4 +476,158 @@ Section RoundProofs.
       { apply in_repl. repeat split; [exact Hxst|exact Hlx|rewrite Hid; exact Ha|exact Hgx]. }
       rewrite (Hcomp x y Hxr Hyr Hid Hb) in Hupd. discriminate.
   Qed.
+
+  (* ---- across rounds: what a round leaves is what the next round may assume ---- *)
+
+  (* R' is a later snapshot of the primary than R, which was taken at index ri: whatever R' has not
+     modified after ri is in R, unchanged *)
+  Definition evolves_above (ri : N) (R R' : list item) : Prop :=
+    forall y, In y R' -> (it_mod y <= ri)%N -> In y R.
+
+  Theorem round_reestablishes_consistent stamp ri last remote st R' :
+    NoDup (ids (filter live st)) -> NoDup (ids (filter live remote)) -> all_global remote ->
+    consistent last (repl st) remote -> hash_sound (repl st) remote ->
+    evolves_above ri remote R' ->
+    consistent ri (repl (apply_round stamp (diff last (view st) remote) st)) R'.
+  Proof.
+    intros Hst Hrem Hglob Hc Hs Hev x y Hx Hy Hid Hm.
+    pose proof (Hev y Hy Hm) as Hyr.
+    pose proof Hx as Hx'. apply in_repl in Hx' as [Hxs [Hlx [Hax Hgx]]].
+    assert (Hin : In (it_id y, it_body y) (content (repl remote))).
+    { unfold content. apply in_map_iff. exists y. split; [reflexivity|]. apply in_repl.
+      repeat split; [exact Hyr|rewrite <- (live_id x y Hid); exact Hlx|rewrite <- Hid; exact Hax|apply Hglob; exact Hyr]. }
+    apply (round_converges stamp last remote st Hst Hrem Hglob Hc Hs) in Hin.
+    unfold content in Hin. apply in_map_iff in Hin as [x2 [Hkb Hx2]]. injection Hkb as Hid2 Hb2.
+    apply in_repl in Hx2 as [Hx2s [Hlx2 _]].
+    assert (x2 = x).
+    { eapply nodup_ids_inj;
+        [apply (nodup_apply_round stamp (diff last (view st) remote) st Hst)| | |congruence];
+        apply filter_In; split; eassumption. }
+    subst x2. exact Hb2.
+  Qed.
+
+  (* the round that follows, on an unchanged primary whose objects are all at or below the returned
+     index, writes nothing -- whatever the hash test says (zero hashes, no hash test at all) *)
+  Theorem second_round_silent stamp ri last remote st :
+    NoDup (ids (filter live st)) -> NoDup (ids (filter live remote)) -> all_global remote ->
+    consistent last (repl st) remote -> hash_sound (repl st) remote ->
+    (forall y, In y remote -> (it_mod y <= ri)%N) ->
+    let st' := apply_round stamp (diff last (view st) remote) st in
+    issued (d_del (diff ri (view st') remote)) = [] /\ issued (d_ups (diff ri (view st') remote)) = [].
+  Proof.
+    intros Hst Hrem Hglob Hc Hs Hm st'. apply idempotent; try assumption.
+    - apply nodup_apply_round; exact Hst.
+    - apply round_converges; assumption.
+    - intros x y _ Hy _ _. unfold Model.need_update. specialize (Hm y Hy). apply N.ltb_ge in Hm.
+      rewrite Hm. reflexivity.
+  Qed.
+
+  (* two rounds: the second one, run with last := the index the first one returned, converges to a later
+     snapshot with no assumption about [last] *)
+  Theorem two_rounds stamp stamp' ri last remote st R' :
+    NoDup (ids (filter live st)) -> NoDup (ids (filter live remote)) -> all_global remote ->
+    consistent last (repl st) remote -> hash_sound (repl st) remote ->
+    evolves_above ri remote R' -> NoDup (ids (filter live R')) -> all_global R' ->
+    let st' := apply_round stamp (diff last (view st) remote) st in
+    hash_sound (repl st') R' ->
+    Permutation (content (repl (apply_round stamp' (diff ri (view st') R') st'))) (content (repl R')).
+  Proof.
+    intros Hst Hrem Hglob Hc Hs Hev Hr' Hg' st' Hs'. apply round_permutation; try assumption.
+    - apply nodup_apply_round; exact Hst.
+    - apply round_reestablishes_consistent; assumption.
+  Qed.
+
+  (* what the round writes carries the primary's hash: the next round's hash test sees it *)
+  Lemma restamp_keeps stamp (y : item) :
+    it_id (restamp stamp y) = it_id y /\ it_hash (restamp stamp y) = it_hash y /\
+    it_body (restamp stamp y) = it_body y /\ it_local (restamp stamp y) = it_local y.
+  Proof. repeat split. Qed.
+
+  (* ---- two snapshots of the primary ---- *)
+  Notation acl_round_two := (@acl_round_two K H keqb kltb is_empty same_hash applies).
+
+  Lemma acl_round_two_same stamp ri last remote st :
+    acl_round_two stamp ri last remote remote st = acl_round stamp ri last remote st.
+  Proof. reflexivity. Qed.
+
+  (* the batch read agrees with the list on the objects the round upserts: same round *)
+  Theorem two_snapshots_agree stamp ri last remote batch st :
+    (let d := diff (effective_last ri last) (view st) remote in
+     fetch_updated (ids (d_ups d)) (isort batch) = fetch_updated (ids (d_ups d)) (isort remote)) ->
+    acl_round_two stamp ri last remote batch st = acl_round stamp ri last remote st.
+  Proof. intros Heq. unfold Model.acl_round_two, Model.acl_round. cbn zeta in Heq. rewrite Heq. reflexivity. Qed.
+
+  (* ---- writes the state store refuses (unique names) ---- *)
+  Variable name_of : N -> option N.
+  Notation upsert_batch := (@upsert_batch K H keqb name_of).
+  Notation name_conflict := (@name_conflict K H keqb name_of).
+  Notation holds_name := (@holds_name K H name_of).
+  Notation acl_round_store := (@acl_round_store K H keqb kltb is_empty same_hash applies name_of).
+
+  Lemma upsert_batch_some stamp us : forall st st',
+    upsert_batch stamp us st = Some st' -> st' = upsert_all stamp us st.
+  Proof.
+    induction us as [|y us IH]; intros st st'; cbn [Model.upsert_batch Model.upsert_all fold_left].
+    - intros Heq. injection Heq as <-. reflexivity.
+    - destruct (name_conflict y st); [discriminate|]. apply IH.
+  Qed.
+
+  (* every issued write accepted: the round is the idealised one (so C19_round applies to it) *)
+  Theorem store_round_accepted stamp ri last remote st st' :
+    acl_round_store stamp ri last remote st = (st', true) ->
+    st' = acl_round stamp ri last remote st.
+  Proof.
+    unfold Model.acl_round_store, Model.acl_round.
+    destruct (upsert_batch stamp _ _) as [st2|] eqn:E; [|discriminate].
+    intros Heq. injection Heq as <-. apply upsert_batch_some in E. exact E.
+  Qed.
+
+  (* a refused batch: only the deletions happened *)
+  Theorem store_round_refused stamp ri last remote st st' :
+    acl_round_store stamp ri last remote st = (st', false) ->
+    st' = delete_all (issued (d_del (diff (effective_last ri last) (view st) remote))) st.
+  Proof.
+    unfold Model.acl_round_store.
+    destruct (upsert_batch stamp _ _) as [st2|] eqn:E; [discriminate|].
+    intros Heq. injection Heq as <-. reflexivity.
+  Qed.
+
+  (* A sufficient condition for acceptance that can be read off the two tables: no upserted object takes
+     a name that another id of the secondary (one that survives the deletions) holds, and the upserts'
+     names are pairwise different (they are: names are unique in the primary). *)
+  Definition name_free (us st : list item) : Prop :=
+    forall u x n, In u us -> In x st -> name_of (it_body u) = Some n ->
+      it_id x <> it_id u -> holds_name n x = false.
+
+  Definition names_distinct (us : list item) : Prop :=
+    forall u v n, In u us -> In v us -> name_of (it_body u) = Some n -> name_of (it_body v) = Some n ->
+      it_id u = it_id v.
+
+  Lemma name_conflict_false y st :
+    (forall x n, In x st -> name_of (it_body y) = Some n -> it_id x <> it_id y -> holds_name n x = false) ->
+    name_conflict y st = false.
+  Proof.
+    intros Hf. unfold Model.name_conflict. destruct (name_of (it_body y)) as [n|] eqn:E; [|reflexivity].
+    destruct (existsb _ st) eqn:Ex; [|reflexivity].
+    apply existsb_exists in Ex as [x [Hx Hc]]. apply andb_true_iff in Hc as [Hne Hh].
+    apply negb_true_iff in Hne. apply (keqb_false keqb keqb_spec) in Hne.
+    rewrite (Hf x n Hx eq_refl Hne) in Hh. discriminate.
+  Qed.
+
+  Theorem accepted_when_names_free stamp us : forall st,
+    name_free us st -> names_distinct us ->
+    upsert_batch stamp us st = Some (upsert_all stamp us st).
+  Proof.
+    induction us as [|y us IH]; intros st Hfree Hdist; cbn [Model.upsert_batch Model.upsert_all fold_left]; [reflexivity|].
+    rewrite name_conflict_false.
+    - apply IH.
+      + intros u x n Hu Hx Hn Hne. apply In_upsert in Hx as [[Hx _]|Hx].
+        * apply (Hfree u x n); [right; exact Hu|exact Hx|exact Hn|exact Hne].
+        * subst x. unfold Model.holds_name. cbn [restamp it_body it_id] in *.
+          destruct (name_of (it_body y)) as [m|] eqn:Em; [|reflexivity].
+          destruct (N.eqb m n) eqn:Emn; [|reflexivity]. apply N.eqb_eq in Emn. subst m.
+          exfalso. apply Hne. apply (Hdist y u n); [left; reflexivity|right; exact Hu|exact Em|exact Hn].
+      + intros u v n Hu Hv. apply Hdist; right; assumption.
+    - intros x n Hx Hn Hne. apply (Hfree y x n); [left; reflexivity|exact Hx|exact Hn|exact Hne].
+  Qed.
 End RoundProofs.
